@@ -6,7 +6,9 @@ import time
 import core
 
 which = [a for a in sys.argv[1:] if not a.startswith("-")] or ["topo", "queues", "prune"]
-ctx = core.Ctx("SELFTEST", "quick", 0)
+tier = "thorough" if "--thorough" in sys.argv else "quick"
+seed = next((int(a.split("=")[1]) for a in sys.argv if a.startswith("--seed=")), 0)
+ctx = core.Ctx("SELFTEST", tier, seed)
 t0 = time.time()
 for w in which:
     if w == "topo":
